@@ -40,7 +40,7 @@ CLAIMED = {
             'text': 'file metadata and level shape: hull of several files (O7.1, known finding D4), binary search on well-formed levels (O1.3), file comparator is a total order (O10.3), version edits keep levels >= 1 sorted and disjoint and equal base - deleted + added (O10.5), a flush records the first and last written key as the bounds of its table (O10.6), the seek-compaction candidate is recorded with the level it lives in (O10.7), manifest snapshot preserves (level, number, size, smallest..largest) (O1.7)',
             'note': B_NOTE, 'technique': TECH},
     'C02': {'engine': 'engine-b-mirse', 'design_ref': 'DESIGN.md section 4 C02',
-            'text': 'log level and orchestration steps: for every writer-producible log of <= 3 (thorough: 4) fragments cut at ANY byte the reader returns exactly the complete records before the cut, then end-of-file (O12.3 = O2.1); a flush drops the immutable memtable / removes obsolete files only after table write and manifest edit succeeded (O2.4); open replays exactly the WALs >= the manifest WAL number in ascending order, treats only the newest as reusable, restores the maximal sequence (O2.5b); one WAL contributes every batch and its true last sequence (O2.5a); VersionSet::recover restores the last recorded WAL number / sequence / file counter from a manifest of <= 2 (thorough: 3) records and gives a manifest that is not reused a number different from the one CURRENT names (O2.6); a log writer reopened on an existing file continues at the block position where the file ends (O12.5); a new manifest is created empty, filled with snapshot and edit, and only then made CURRENT (O2.7); CURRENT is switched by write-temp-then-rename and failures are reported (O8.4); a table build starts from an empty file even if a leftover with its number exists (O14.4) and writes every entry (O10.6); DB::open removes obsolete files only after recovery and the manifest edit (O11.2)',
+            'text': 'log level and orchestration steps: for every writer-producible log of <= 3 (thorough: 4) fragments cut at ANY byte the reader returns exactly the complete records before the cut, then end-of-file (O12.3 = O2.1); a flush drops the immutable memtable / removes obsolete files only after table write and manifest edit succeeded (O2.4); open replays exactly the WALs >= the manifest WAL number in ascending order, treats only the newest as reusable, restores the maximal sequence (O2.5b); one WAL contributes every batch and its true last sequence (O2.5a); VersionSet::recover restores the last recorded WAL number / sequence / file counter from a manifest of <= 2 (thorough: 3) records and gives a manifest that is not reused a number different from the one CURRENT names (O2.6); a log writer reopened on an existing file continues at the block position where the file ends (O12.5); a new manifest is created empty, filled with snapshot and edit, and only then made CURRENT (O2.7); an existing database is never initialised again and an unreadable CURRENT is an error (O2.8); CURRENT is switched by write-temp-then-rename and failures are reported (O8.4); a table build starts from an empty file even if a leftover with its number exists (O14.4) and writes every entry (O10.6); DB::open removes obsolete files only after recovery and the manifest edit (O11.2)',
             'note': B_NOTE + '; crash points are not enumerated: the obligations are the per-step facts the crash argument rests on', 'technique': TECH},
     'C12': {'engine': 'engine-b-mirse', 'design_ref': 'DESIGN.md section 4 C12',
             'text': 'writer fragmentation geometry for every start offset and record length <= 3 blocks (O12.1); a reopened writer starts at file size mod 32768 for every 64-bit size (O12.5); reader reassembly over abstract block-accurate fragment streams: intact or cut at any byte (O12.3), abandoned record prefix + reopened writer (O12.4)',
